@@ -1,12 +1,14 @@
 """Older rules read particular spellings.  `guarded(fn, resolver)` makes such a rule subordinate to the reference
 transcription of the function it looks at: a failure on a function whose canonical form EQUALS the reviewed transcription
-is dropped (the spelling changed, not the behaviour); on a function organised differently it is reported as undecided;
-only when the canonical form differs from the reference (or no reference exists) does it stand.
+is dropped (the spelling changed, not the behaviour); on a function organised differently (components of the reference
+without a counterpart) it is reported as undecided; when every component has a counterpart and some differ -- decisively
+or not: two witnesses, the rule and the shape -- or when no reference exists, it stands.
 
 resolver(ctx, fi) -> (reference tree, reference name(s), int_names) or None."""
 from __future__ import annotations
 
 import ast
+import os
 
 from .pm import AnalysisError, Undecided
 from . import sym
@@ -45,16 +47,20 @@ def status(ctx, fi, resolver):
     return st
 
 
-def guarded(fn, resolver):
+def guarded(fn, resolver, near_stands=True):
+    """near_stands=False for rules that only match source text: on a function whose every component has a counterpart but
+    differs by more than a token they have no evidence of their own"""
     def run(ctx):
         orig_bad = ctx.bad
 
         def bad(key, where, msg, sample=None):
+            if os.environ.get("VERIF_NO_GUARD") == "1":     # self-test: on the reviewed tree every guarded rule must hold on its own
+                return orig_bad(key, where, msg, sample)
             fi = func_at(ctx, where)
             st = status(ctx, fi, resolver)[0] if fi is not None else "none"
             if st == "same":
                 ctx.ok("spelling-only:%s" % key, nontrivial=False)
-            elif st == "unrecognised":
+            elif st == "unrecognised" or (st == "near" and not near_stands):
                 ctx.undecided(key, where, msg)
             else:
                 orig_bad(key, where, msg, sample)
